@@ -275,21 +275,30 @@ def _h1_body(buf: bytes, pos: int, m: H1Msg, no_body: bool, until_close_ok: bool
     return pos
 
 
+def parse_one_request(buf: bytes, pos: int = 0):
+    """-> (H1Msg, end offset) or None if incomplete.  Raises H1Bad."""
+    try:
+        m, p = _h1_head(buf, pos)
+        parts = m.start.split(b" ")
+        if len(parts) != 3 or not parts[2].startswith(b"HTTP/1."):
+            raise H1Bad("request line %r" % m.start)
+        m.method, m.target, m.version = parts
+        p = _h1_body(buf, p, m, m.method == b"CONNECT", False)
+    except H1Incomplete:
+        return None
+    return m, p
+
+
 def parse_requests(buf: bytes):
-    """-> (complete requests, unparsed rest).  Raises H1Bad if the stream is not a sequence of HTTP/1 requests."""
+    """-> (complete requests, unparsed rest).  Raises H1Bad if the stream is not a sequence of HTTP/1 requests.
+    Stops after a CONNECT (what follows is tunnel content)."""
     out, pos = [], 0
     while pos < len(buf):
-        try:
-            m, p = _h1_head(buf, pos)
-            parts = m.start.split(b" ")
-            if len(parts) != 3 or not parts[2].startswith(b"HTTP/1."):
-                raise H1Bad("request line %r" % m.start)
-            m.method, m.target, m.version = parts
-            p = _h1_body(buf, p, m, m.method == b"CONNECT", False)
-        except H1Incomplete:
+        r = parse_one_request(buf, pos)
+        if r is None:
             break
+        m, pos = r
         out.append(m)
-        pos = p
         if m.method == b"CONNECT":
             break
     return out, buf[pos:]
@@ -377,3 +386,188 @@ class Origin:
                 else:
                     self.d.recv(self.conn, b"HTTP/1.1 200 OK\r\ncontent-length: %d\r\n\r\n%s" % (
                         len(self.body), b"" if r.method == b"HEAD" else self.body))
+
+
+# ------------------------------------------------------------------------------------------------ TLS endpoints
+class TestPki:
+    """self-signed EC server certificate for the in-memory origin / proxy peers (mitmproxy runs with ssl_insecure)"""
+    _inst = None
+
+    def __init__(self):
+        import atexit
+        import datetime
+        import ssl
+        from cryptography import x509
+        from cryptography.hazmat.primitives import hashes, serialization
+        from cryptography.hazmat.primitives.asymmetric import ec
+        from cryptography.x509.oid import NameOID
+
+        key = ec.generate_private_key(ec.SECP256R1())
+        name = x509.Name([x509.NameAttribute(NameOID.COMMON_NAME, "verif-peer")])
+        # fixed validity window: no wall clock in the checks (mitmproxy does not verify: ssl_insecure)
+        nb = datetime.datetime(2020, 1, 1)
+        cert = (x509.CertificateBuilder().subject_name(name).issuer_name(name).public_key(key.public_key())
+                .serial_number(1000).not_valid_before(nb).not_valid_after(datetime.datetime(2099, 1, 1))
+                .add_extension(x509.SubjectAlternativeName([x509.DNSName("*.example"), x509.DNSName("origin.example")]), False)
+                .sign(key, hashes.SHA256()))
+        self.dir = tempfile.mkdtemp(prefix="verif-pki-", dir="/dev/shm" if os.path.isdir("/dev/shm") else "/var/tmp")
+        self.certfile = os.path.join(self.dir, "peer.pem")
+        with open(self.certfile, "wb") as f:
+            f.write(key.private_bytes(serialization.Encoding.PEM, serialization.PrivateFormat.TraditionalOpenSSL,
+                                      serialization.NoEncryption()))
+            f.write(cert.public_bytes(serialization.Encoding.PEM))
+        self.server_ctx = ssl.SSLContext(ssl.PROTOCOL_TLS_SERVER)
+        self.server_ctx.load_cert_chain(self.certfile)
+        self.server_ctx.set_alpn_protocols(["http/1.1"])
+        self.client_ctx = ssl.SSLContext(ssl.PROTOCOL_TLS_CLIENT)
+        self.client_ctx.check_hostname = False
+        self.client_ctx.verify_mode = ssl.CERT_NONE
+        self.client_ctx.set_alpn_protocols(["http/1.1"])
+        atexit.register(self.close)
+
+    @classmethod
+    def get(cls) -> "TestPki":
+        if cls._inst is None:
+            cls._inst = cls()
+        return cls._inst
+
+    def close(self):
+        if self.dir:
+            shutil.rmtree(self.dir, ignore_errors=True)
+            self.dir = None
+        if TestPki._inst is self:
+            TestPki._inst = None
+
+
+class _Tls:
+    """one ssl.MemoryBIO endpoint"""
+
+    def __init__(self, server_side: bool, sni=None):
+        import ssl
+        pki = TestPki.get()
+        self.inc, self.out = ssl.MemoryBIO(), ssl.MemoryBIO()
+        if server_side:
+            self.obj = pki.server_ctx.wrap_bio(self.inc, self.out, server_side=True)
+        else:
+            self.obj = pki.client_ctx.wrap_bio(self.inc, self.out, server_hostname=sni)
+        self.done = False
+        self.error = None
+
+    def pump(self, data: bytes = b""):
+        """feed ciphertext; -> (plaintext received, ciphertext to send)"""
+        import ssl
+        if data:
+            self.inc.write(data)
+        plain = b""
+        try:
+            if not self.done:
+                self.obj.do_handshake()
+                self.done = True
+            while True:
+                chunk = self.obj.read(65536)
+                if not chunk:
+                    break
+                plain += chunk
+        except (ssl.SSLWantReadError, ssl.SSLWantWriteError):
+            pass
+        except ssl.SSLError as e:
+            self.error = e
+        except ssl.SSLZeroReturnError:
+            pass
+        return plain, self.out.read()
+
+    def encrypt(self, plain: bytes) -> bytes:
+        self.obj.write(plain)
+        return self.out.read()
+
+
+class HttpEndpoint:
+    """Server side of one byte stream: TLS auto-detected (first byte 0x16), then HTTP/1 requests; a CONNECT is
+    answered with 200 and turns the rest of the stream into a nested endpoint (tunnel).  Every request seen at any
+    depth is appended to ``log`` as (label, tls_depth, H1Msg); every plaintext byte to ``plain[label]``."""
+
+    def __init__(self, send, label: str, log: list, plain: dict, tls_depth=0, body=b"ok"):
+        self.send, self.label, self.log, self.plain = send, label, log, plain
+        self.tls = None
+        self.tls_depth = tls_depth
+        self.started = False
+        self.buf = b""
+        self.inner = None
+        self.bad = None
+        self.body = body
+
+    def feed(self, data: bytes):
+        if not data:
+            return
+        if not self.started:
+            self.started = True
+            if data[0] == 0x16:
+                self.tls = _Tls(True)
+                self.tls_depth += 1
+                self.label += "+tls"
+        if self.tls is not None:
+            data, reply = self.tls.pump(data)
+            if reply:
+                self.send(reply)
+            if not data:
+                return
+        if self.inner is not None:
+            self.inner.feed(data)
+            return
+        self.plain[self.label] = self.plain.get(self.label, b"") + data
+        self.buf += data
+        while self.buf and self.inner is None:
+            try:
+                got = parse_one_request(self.buf)
+            except H1Bad as e:
+                self.bad = e
+                return
+            if got is None:
+                return
+            r, consumed = got
+            self.buf = self.buf[consumed:]
+            self.log.append((self.label, self.tls_depth, r))
+            if r.method == b"CONNECT":
+                self.send_plain(b"HTTP/1.1 200 Connection established\r\n\r\n")
+                self.inner = HttpEndpoint(self.send_plain, self.label + ">tunnel", self.log, self.plain, self.tls_depth, self.body)
+                rest, self.buf = self.buf, b""
+                self.inner.feed(rest)
+            else:
+                self.send_plain(b"HTTP/1.1 200 OK\r\ncontent-length: %d\r\n\r\n%s" % (
+                    len(self.body), b"" if r.method == b"HEAD" else self.body))
+
+    def send_plain(self, data: bytes):
+        if self.tls is not None:
+            data = self.tls.encrypt(data)
+        self.send(data)
+
+
+class TlsClient:
+    """TLS client on the driver's client connection (optionally nested inside an established tunnel)."""
+
+    def __init__(self, d: Driver, conn, sni: str):
+        self.d, self.conn = d, conn
+        self.tls = _Tls(False, sni)
+        self.pos = len(d.out(conn))
+        self.plain_in = b""
+
+    def _exchange(self, to_send: bytes):
+        for _ in range(20):
+            if to_send:
+                self.d.recv(self.conn, to_send)
+            new = self.d.out(self.conn)[self.pos:]
+            self.pos += len(new)
+            if not new and not to_send:
+                return
+            plain, to_send = self.tls.pump(new)
+            self.plain_in += plain
+            if not new and not to_send:
+                return
+
+    def handshake(self) -> bool:
+        _, hello = self.tls.pump()
+        self._exchange(hello)
+        return self.tls.done
+
+    def send(self, plain: bytes):
+        self._exchange(self.tls.encrypt(plain))
